@@ -185,9 +185,13 @@ def run_fuzz_all(units, plan, tier, seed):
         todo.append((u, secs))
     out = {}
 
+    known = load_known()
+
     def one(item):
         u, secs = item
-        return u.name, fuzz.run_fuzz(u.name, plan["sidecars"], seed=seed, n=200000, seconds=secs)
+        classes = [k["class"] for k in known if k["obligation"].startswith(u.name + "::")
+                   and k["class"].strip() not in ("*", "any")]
+        return u.name, fuzz.run_fuzz(u.name, plan["sidecars"], seed=seed, n=200000, seconds=secs, known_classes=classes)
     with cf.ThreadPoolExecutor(max_workers=8) as ex:
         for name, r in ex.map(one, todo):
             out[name] = r
